@@ -2,7 +2,7 @@
    syntax tree whose meaning is proved (C39/Ast.v) to be update_next_Q / upd_float. *)
 From Coq Require Import List ZArith QArith.
 From Coq Require Import PrimFloat.
-From TV Require Import C39.Model C39.Ast Gen.C39_src.
+From TV Require Import C39.Model C39.Ast C39.RunLoopSrc Gen.C39_src.
 
 Lemma src_update_next_is_expected : src_update_next = expected_update_next.
 Proof. reflexivity. Qed.
@@ -15,3 +15,9 @@ Proof. rewrite src_update_next_is_expected. apply expected_means_update_next_Q. 
 Lemma src_means_upd_float (ct jit r now next cts0 : float) :
   fnext (fexec src_update_next (mkF ct jit r now next cts0)) = upd_float ct jit r now next.
 Proof. rewrite src_update_next_is_expected. apply expected_means_upd_float. Qed.
+
+(* the run-loop methods are textually the ones the machine of C39/Model.v was written from *)
+Lemma src_runloop_is_expected :
+  src_start = expected_start /\ src_stop = expected_stop /\ src_run = expected_run
+  /\ src_schedule_next = expected_schedule_next.
+Proof. repeat split; reflexivity. Qed.
